@@ -198,6 +198,14 @@ def step (s : S) : Op → Obs → Option S
   | .pump, .wr w r => (onPumpWrite s w).bind (onPumpRead · r)
   | _, _ => none
 
+/-- What `n` successive blocking reads of a byte string must return, by the pure parser alone. -/
+def specReads (limit : Nat) (eof : Bool) : Nat → Bytes → List RStat
+  | 0, _ => []
+  | n + 1, u => match front limit u with
+      | .item p rest => .item p :: specReads limit eof n rest
+      | .tooBig => .err .toobig :: specReads limit eof n u
+      | .incomplete => (if eof then .err .eof else .err .wouldblock) :: specReads limit eof n u
+
 /-- Run the monitor over a trace. -/
 def accepts : S → List (Op × Obs) → Bool
   | _, [] => true
